@@ -357,6 +357,7 @@ func checkC15(c *Ctx) {
 	// replacing it later makes IsOpen/Write/Flush vacuous successes (use after Close must fail)
 	c.checkSetOnlyAtConstruction("O5 fixed-destinations", pk, "TMultiUDPTransport", "transports")
 	c.checkSetOnlyAtConstruction("O5 fixed-destinations", pk, "TUDPTransport", "conn", "addr")
+	c.checkMultiTransportCtor("O5 every-destination")
 
 	// ---- O6 Close ------------------------------------------------------------------------------------
 	if cl := c.fn(pk, "TUDPTransport", "Close"); cl != nil {
@@ -495,4 +496,108 @@ func (c *Ctx) writerDiscardsOnError() bool {
 		})
 	}
 	return found
+}
+
+// checkMultiTransportCtor: the multi transport has one transport per destination given, in order: in
+// the constructor the list stored as `transports` is built by a loop over every index of the
+// destination list that appends, in every iteration that does not return an error, a transport made
+// for destinations[i]. A destination that is skipped (de-duplicated, filtered) never receives a datagram
+// although every Write and Flush reports success.
+func (c *Ctx) checkMultiTransportCtor(rule string) {
+	const pk = "m3/thriftudp"
+	fn := c.fn(pk, "", "NewTMultiUDPClientTransport")
+	fTs := c.field(pk, "TMultiUDPTransport", "transports")
+	if fn == nil || fTs == nil || len(fn.Params) == 0 {
+		c.missing(rule, "thriftudp.NewTMultiUDPClientTransport / TMultiUDPTransport.transports")
+		return
+	}
+	key := c.fnKey(fn)
+	c.sawFunc(key)
+	dests := ssa.Value(fn.Params[0])
+	var list ssa.Value
+	instrsOf(fn, func(in ssa.Instruction) {
+		if st, ok := in.(*ssa.Store); ok {
+			if f, _ := addrField(st.Addr); f == fTs {
+				list = stripConv(st.Val)
+			}
+		}
+	})
+	ok, why := false, "the transports list is not built by one loop over all destinations"
+	if phi, isPhi := list.(*ssa.Phi); isPhi {
+		for _, fl := range fullIndexLoops(fn) {
+			if fl.list != accessPath(dests) || phi.Block() != fl.header {
+				continue
+			}
+			lp := fl.loop
+			var app *ssa.Call
+			okEdges := true
+			for i, e := range phi.Edges {
+				if lp.Blocks[phi.Block().Preds[i]] {
+					call, isCall := e.(*ssa.Call)
+					if !isCall || !isBuiltin(call, "append") || stripConv(call.Call.Args[0]) != ssa.Value(phi) {
+						okEdges = false // an iteration can come back without having appended (continue)
+						why = "an iteration can finish without appending a transport for its destination (the destination is skipped)"
+						continue
+					}
+					app = call
+				} else if !emptyPrivateSlice(e) {
+					okEdges = false
+					why = "the transports list does not start empty"
+				}
+			}
+			if !okEdges || app == nil {
+				continue
+			}
+			// the appended transport is made from destinations[i]
+			_, elems, _, isApp := appendedValues(app)
+			made := false
+			if isApp && len(elems) == 1 {
+				v := canon(stripConv(elems[0]))
+				if ex, isEx := v.(*ssa.Extract); isEx {
+					v = ex.Tuple
+				}
+				if call, isCall := v.(*ssa.Call); isCall {
+					for _, a := range call.Call.Args {
+						if fl.elemOf(a) {
+							made = true
+						}
+					}
+				}
+			}
+			if !made {
+				why = "the transport appended in an iteration is not made for destinations[i]"
+				continue
+			}
+			// leaving the loop early only by returning an error
+			exits := true
+			for b := range lp.Blocks {
+				for _, sc := range b.Succs {
+					if lp.Blocks[sc] || b == lp.Header {
+						continue
+					}
+					for _, ra := range returnsFromEdge(b, indexOfSucc(b, sc)) {
+						if len(ra.ret.Results) != 2 || isNilConst(ra.st.resolve(ra.ret.Results[1])) {
+							exits = false
+						}
+					}
+				}
+			}
+			if !exits {
+				why = "the loop over the destinations can be left early without an error"
+				continue
+			}
+			ok = true
+		}
+	}
+	c.check(ok, rule, key, fn.Pos(), "one transport per destination, in order (an iteration either appends the transport made for destinations[i] or returns an error)",
+		"the multi transport is not built with one transport per destination: "+why+" - such a destination never receives a datagram while every Write and Flush reports success")
+}
+
+func indexOfSucc(b, s *ssa.BasicBlock) int {
+	for i, x := range b.Succs {
+		if x == s {
+			return i
+		}
+	}
+	return 0
 }
